@@ -83,6 +83,8 @@ def parts_text(parts, escape=True):
             out += part
         elif 'dollar' in part:
             out += '$$' * part['dollar']
+        elif part['interp'].get('raw') is not None:
+            out += '${' + part['interp']['raw'] + '}'      # the expression exactly as it is to be written
         else:
             t = expr_text(part['interp'])
             out += '${' + (xml_escape(t) if escape else t) + '}'
